@@ -44,6 +44,7 @@ type unsupported struct{ msg string }
 func unsup(format string, args ...interface{}) { panic(unsupported{fmt.Sprintf(format, args...)}) }
 
 type Translator struct {
+	globalLits map[*ssa.Global]*string
 	prog      *ssa.Program
 	spkg      *ssa.Package
 	tpkg      *types.Package
@@ -102,11 +103,7 @@ func newTranslator(prog *ssa.Program, spkg *ssa.Package, c *Contracts) *Translat
 	for _, cn := range []string{"ALLOC", "GCnt", "GLast"} {
 		tr.u.comp(cn)
 	}
-	tr.u.compSort["MLen"] = "(Array Int Int)"
-	tr.u.comps = append(tr.u.comps, "MLen")
-	tr.u.declConst("MLen_0", "(Array Int Int)")
 	tr.u.decls = append(tr.u.decls, "(assert (> ALLOC_0 0))")
-	tr.u.decls = append(tr.u.decls, "(assert (forall ((a Int)) (! (>= (select MLen_0 a) 0) :pattern ((select MLen_0 a)))))")
 	for _, s := range c.Smt {
 		tr.u.decls = append(tr.u.decls, s)
 	}
@@ -259,7 +256,7 @@ func (tr *Translator) havocComp(c string) string {
 		ks := arrayElemSortPrefix(s)
 		tr.fact(fmt.Sprintf("(= (select %s 0) ((as const %s) false))", n, ks))
 	}
-	if c == "MLen" {
+	if strings.HasPrefix(c, "ML_") {
 		tr.fact(fmt.Sprintf("(forall ((a Int)) (! (>= (select %s a) 0) :pattern ((select %s a))))", n, n))
 	}
 	return n
@@ -811,7 +808,7 @@ func (tr *Translator) havocAll() {
 	}
 	if len(protMaps) > 0 {
 		for c := range tr.u.accessed {
-			if strings.HasPrefix(c, "MD_") || strings.HasPrefix(c, "MV_") || c == "MLen" {
+			if strings.HasPrefix(c, "MD_") || strings.HasPrefix(c, "MV_") || strings.HasPrefix(c, "ML_") {
 				touchedSet[c] = true
 			}
 		}
@@ -852,7 +849,7 @@ func (tr *Translator) havocAll() {
 			tr.factFor(n, fmt.Sprintf("(forall ((a Int)) (! (=> %s (= (select %s a) (select %s a))) :pattern ((select %s a))))", cond, n, old, n))
 		}
 		// TREE: maps held directly by a local value keep their contents
-		if len(protMaps) > 0 && (strings.HasPrefix(c, "MD_") || strings.HasPrefix(c, "MV_") || c == "MLen") {
+		if len(protMaps) > 0 && (strings.HasPrefix(c, "MD_") || strings.HasPrefix(c, "MV_") || strings.HasPrefix(c, "ML_")) {
 			tr.factFor(n, fmt.Sprintf("(forall ((a Int)) (! (=> %s (= (select %s a) (select %s a))) :pattern ((select %s a))))", or(protMaps...), n, old, n))
 		}
 	}
@@ -1000,6 +997,19 @@ func (fc *fctx) bindLoopVars(env *Env, b *ssa.BasicBlock, ord int, phiVal func(*
 					}
 				}
 			case *ssa.DebugRef:
+				// an address-taken local (an Alloc): its name denotes the value it holds in the state the clause is evaluated in
+				if id, ok := x.Expr.(*ast.Ident); ok && x.IsAddr {
+					if al, isAlloc := x.X.(*ssa.Alloc); isAlloc {
+						if _, isParam := fc.params[id.Name]; !isParam {
+							if vs, ok := fc.vals[al]; ok && len(vs) == 1 {
+								et := al.Type().Underlying().(*types.Pointer).Elem()
+								if _, isArr := et.Underlying().(*types.Array); !isArr {
+									env.vars[id.Name] = fc.tr.loadTag(env.st, vs[0].E(), et, "cell")
+								}
+							}
+						}
+					}
+				}
 				// a local variable of the source program, assigned before the loop
 				if id, ok := x.Expr.(*ast.Ident); ok && !x.IsAddr {
 					if _, isParam := x.X.(*ssa.Parameter); isParam {
@@ -1049,6 +1059,18 @@ func (fc *fctx) bindLoopVars(env *Env, b *ssa.BasicBlock, ord int, phiVal func(*
 		}
 		v := phiVal(phi)
 		if phi.Comment == "rangeindex" {
+			// $range<ord>: the slice being ranged over (the operand of the len() the head compares the index with)
+			for _, in2 := range b.Instrs {
+				if bo, ok := in2.(*ssa.BinOp); ok && bo.Op == token.LSS {
+					if c, ok := bo.Y.(*ssa.Call); ok {
+						if bi, ok := c.Call.Value.(*ssa.Builtin); ok && bi.Name() == "len" && len(c.Call.Args) == 1 {
+							if vs, ok := fc.vals[c.Call.Args[0]]; ok && len(vs) == 1 {
+								env.vars[fmt.Sprintf("$range%d", ord)] = vs[0]
+							}
+						}
+					}
+				}
+			}
 			env.vars[fmt.Sprintf("$i%d", ord)] = intVal(add(v.E(), "1"))
 		} else if phi.Comment != "" {
 			env.vars[phi.Comment] = v
@@ -1181,7 +1203,7 @@ func (fc *fctx) modifiedIn(body map[*ssa.BasicBlock]bool) ([]string, bool) {
 				case *ssa.MapUpdate:
 					mt := x.Map.Type().Underlying().(*types.Map)
 					md, mv, _, _ := tr.u.mapComps(mt)
-					mods[md], mods[mv], mods["MLen"] = true, true, true
+					mods[md], mods[mv], mods[tr.u.mapLen(mt)] = true, true, true
 				case *ssa.Alloc:
 					mods["ALLOC"] = true
 					et := x.Type().Underlying().(*types.Pointer).Elem()
@@ -1197,7 +1219,7 @@ func (fc *fctx) modifiedIn(body map[*ssa.BasicBlock]bool) ([]string, bool) {
 					if mm, ok := x.(*ssa.MakeMap); ok {
 						mt := mm.Type().Underlying().(*types.Map)
 						md, mv, _, _ := tr.u.mapComps(mt)
-						mods[md], mods[mv], mods["MLen"] = true, true, true
+						mods[md], mods[mv], mods[tr.u.mapLen(mt)] = true, true, true
 					}
 				case *ssa.Range:
 					if _, ok := x.X.Type().Underlying().(*types.Map); ok {
@@ -1267,7 +1289,7 @@ func (tr *Translator) callMods(cc *ssa.CallCommon, depth int) ([]string, bool) {
 		case "delete":
 			mt := cc.Args[0].Type().Underlying().(*types.Map)
 			md, mv, _, _ := tr.u.mapComps(mt)
-			return []string{md, mv, "MLen"}, false
+			return []string{md, mv, tr.u.mapLen(mt)}, false
 		}
 		return nil, false
 	}
@@ -1319,7 +1341,7 @@ func (tr *Translator) callMods(cc *ssa.CallCommon, depth int) ([]string, bool) {
 			case *ssa.MapUpdate:
 				mt := x.Map.Type().Underlying().(*types.Map)
 				md, mv, _, _ := tr.u.mapComps(mt)
-				mods[md], mods[mv], mods["MLen"] = true, true, true
+				mods[md], mods[mv], mods[tr.u.mapLen(mt)] = true, true, true
 			case *ssa.Alloc:
 				mods["ALLOC"] = true
 				et := x.Type().Underlying().(*types.Pointer).Elem()
@@ -1337,7 +1359,7 @@ func (tr *Translator) callMods(cc *ssa.CallCommon, depth int) ([]string, bool) {
 				if mm, ok := x.(*ssa.MakeMap); ok {
 					mt := mm.Type().Underlying().(*types.Map)
 					md, mv, _, _ := tr.u.mapComps(mt)
-					mods[md], mods[mv], mods["MLen"] = true, true, true
+					mods[md], mods[mv], mods[tr.u.mapLen(mt)] = true, true, true
 				}
 			case *ssa.Range, *ssa.Next:
 				all = true // loops inside inlined callees are not supported anyway
